@@ -123,6 +123,19 @@ def roundtrip(ns):
     return midi_io.midi_to_note_sequence(buf.getvalue())
 
 
+def _rank(rows_lists):
+    """the property allows instrument numbers to be renumbered: replace them by their dense rank"""
+    ids = sorted(set(r[0] for rows in rows_lists for r in rows))
+    rk = {v: i for i, v in enumerate(ids)}
+    return [sorted([rk[r[0]]] + list(r[1:]) for r in rows) for rows in rows_lists]
+
+
+def _drop_empty(instrs):
+    """an Instrument without notes, bends and controls is only a program change on a track of its own; the order of
+    the events inside an Instrument is not observable (PrettyMIDI.write sorts them)"""
+    return [[i[0], i[1], sorted(i[2]), sorted(i[3]), sorted(i[4])] for i in instrs if i[2] or i[3] or i[4]]
+
+
 def canon_seq(out, f):
     notes = sorted([n.instrument, n.program, int(n.is_drum), n.pitch, n.velocity, U(n.start_time, f), U(n.end_time, f)]
                    for n in out.notes)
@@ -132,6 +145,7 @@ def canon_seq(out, f):
     tempos = [[U(t.time, f), qpm_to_us(t.qpm)] for t in out.tempos]
     tsigs = [[U(t.time, f), t.numerator, t.denominator] for t in out.time_signatures]
     ksigs = [[U(k.time, f), k.key, k.mode] for k in out.key_signatures]
+    notes, ccs, bends = _rank([notes, ccs, bends])
     return [notes, ccs, bends, tempos, tsigs, ksigs, U(out.total_time, f), out.ticks_per_quarter]
 
 
@@ -154,7 +168,7 @@ def impl(case):
                        [[c.number, c.value, U(c.time, f)] for c in i.control_changes]] for i in pm.instruments]
             return ['OK', pm.resolution, scales,
                     [[t.numerator, t.denominator, U(t.time, f)] for t in pm.time_signature_changes],
-                    [[k.key_number, U(k.time, f)] for k in pm.key_signature_changes], instrs]
+                    [[k.key_number, U(k.time, f)] for k in pm.key_signature_changes], _drop_empty(instrs)]
         out = roundtrip(ns)
         return ['OK'] + canon_seq(out, f)
     except NonInt as e:
@@ -180,12 +194,12 @@ def model_input(case):
 def model_output(case, m):
     if case['op'] == 'write':
         ties, (res, scales, tsigs, ksigs, instrs) = m
-        return ['OK', res, scales, tsigs, ksigs, instrs, {'ties': ties}]
+        return ['OK', res, scales, tsigs, ksigs, _drop_empty(instrs), {'ties': ties}]
     if m[0] != 1:
         return ['EXC', 'MIDIConversionError']
     _, pre, ties, notes, ccs, bends, tempos, tsigs, ksigs, total, tpq = m
-    return ['OK', sorted(notes), sorted(ccs), sorted(bends), tempos, tsigs, ksigs, total, tpq,
-            {'pre': pre, 'ties': ties}]
+    notes, ccs, bends = _rank([notes, ccs, bends])
+    return ['OK', notes, ccs, bends, tempos, tsigs, ksigs, total, tpq, {'pre': pre, 'ties': ties}]
 
 
 def equal(case, a, b):
@@ -362,12 +376,17 @@ def oracle(case, io_):
     for t, num, val, ins, prog, dr in d['ccs']:
         if (ins, prog, dr) in gin:
             cin.setdefault(amap[(ins, prog, dr)], []).append(((num, val), (t,)))
+    pd_out = {o: list(gout[o]['pd'])[0] for o in gout}
     for ins, prog, dr, num, val, t in ccs:
+        if pd_out.get(ins) != (prog, dr):
+            return {'kind': 'control-change-on-wrong-program', 'out_instrument': ins}
         cout.setdefault(ins, []).append(((num, val), (t,)))
     for t, b, ins, prog, dr in d['bends']:
         if (ins, prog, dr) in gin:
             bin_.setdefault(amap[(ins, prog, dr)], []).append(((b,), (t,)))
     for ins, prog, dr, b, t in bends:
+        if pd_out.get(ins) != (prog, dr):
+            return {'kind': 'pitch-bend-on-wrong-program', 'out_instrument': ins}
         bout.setdefault(ins, []).append(((b,), (t,)))
     for o in set(cin) | set(cout):
         if not _match_lists(sorted(cin.get(o, [])), sorted(cout.get(o, [])), tol):
